@@ -38,9 +38,9 @@ Definition kw_end : list byte := [36;101;110;100].
 Definition kw_dumpoff : list byte := [36;100;117;109;112;111;102;102].
 Definition kw_dumpon : list byte := [36;100;117;109;112;111;110].
 
-Definition one_bit_first_chars : list byte :=
-  [48;49;122;90;120;88;104;72;117;85;119;87;108;76;45].
-Definition multi_bit_first_chars : list byte := [98;66;114;82;115;83].
+(* Generated/Consts.v, from the match arms of vcd.rs parse_first_token *)
+Definition one_bit_first_chars : list byte := one_bit_first_chars_src.
+Definition multi_bit_first_chars : list byte := multi_bit_first_chars_src.
 Definition mem_byte (c : byte) (l : list byte) : bool := existsb (N.eqb c) l.
 
 (* parse_first_token; `debug` = debug_assert!(token.len() > 1) is compiled in *)
